@@ -48,6 +48,24 @@ type entity struct {
 // a dotted object identifier with an arc of at least 2^31 (ten digits and more; 2147483648 is the smallest)
 var bigArc = regexp.MustCompile(`[0-9]\.(2147483(6(4[89]|[5-9][0-9])|[7-9][0-9]{2})|21474[89][0-9]{5}|2147[5-9][0-9]{6}|214[89][0-9]{7}|21[5-9][0-9]{8}|2[2-9][0-9]{9}|[3-9][0-9]{9}|[0-9]{11,})([^0-9]|$)`)
 
+// zone offset (seconds east) of local midnight of a YYYY-MM-DD date, 0 when the text is not such a date
+func localOffsetOf(date string) int64 {
+	t, err := time.ParseInLocation("2006-01-02", date, time.Local)
+	if err != nil {
+		return 0
+	}
+	_, off := t.Zone()
+	return int64(off)
+}
+
+// the validity block that applies: the entity's own, else its profile's
+func effValidity(e entity) Validity {
+	if e.cfg.Validity.From != "" || e.cfg.Validity.Until != "" || e.cfg.Validity.Duration != "" || e.profile == nil {
+		return e.cfg.Validity
+	}
+	return e.profile.Validity
+}
+
 // the hierarchy is built through the library calls AddProfile / AddAndSign on an empty database instead of from files
 var apiMode bool
 
@@ -478,7 +496,9 @@ func runHierarchy(tag string, ents []entity, profiles []*Profile) int {
 			issuerTerm = "(Some (" + cqB(issuerEnt.cfg.Subject) + ", " + cqBytes(issuerBits) + "))"
 		}
 		expect := "None"
-		obsTerm := "(mkObs 1%Z (spki_of (B \"3059301306072a8648ce3d020106082a8648ce3d030107034200040000000000000000000000000000000000000000000000000000000000000000000000000000000000000000000000000000000000000000000000000000000000\")) [] (mkWall 2025 1 1 0) 0 0)"
+		// (no certificate: the zone offsets the model needs for explicit dates are taken from Go's time package directly)
+		obsTerm := fmt.Sprintf("(mkObs 1%%Z (spki_of (B \"3059301306072a8648ce3d020106082a8648ce3d030107034200040000000000000000000000000000000000000000000000000000000000000000000000000000000000000000000000000000000000000000000000000000000000\")) [] (mkWall 2025 1 1 0) %s %s)",
+			cqZ(localOffsetOf(effValidity(e).From)), cqZ(localOffsetOf(effValidity(e).Until)))
 		sha := "[]"
 		if o != nil {
 			expect = "(Some " + cqBytes(o.der) + ")"
